@@ -52,7 +52,7 @@ func rootIdent(e ast.Expr) *ast.Ident {
 // function is treated as local). Writes GlobalsGen.tla and a JSON summary.
 func Globals(args []string) {
 	fs := flag.NewFlagSet("conc globals", flag.ExitOnError)
-	repo := fs.String("repo", "/repo", "repository")
+	repo := fs.String("repo", reg.Repo(), "repository")
 	out := fs.String("out", "", "GlobalsGen.tla to write")
 	fs.Parse(args)
 	type key struct{ pkg, name string }
